@@ -81,6 +81,7 @@ var transferTypes = map[string]reflect.Type{
 // libEncodePDU encodes an abstract PDU with the library (through its Go types).
 func libEncodePDU(s *refper.Schema, n *refper.Node) (b []byte, err error, panicked bool) {
 	var pdu ngapType.NGAPPDU
+	gobridge.NilForEmpty, gobridge.EmptyOctetsSeen = false, 0
 	if e := gobridge.ToGo(s, "NGAPPDU", n, reflect.ValueOf(&pdu).Elem()); e != nil {
 		return nil, fmt.Errorf("harness: %v", e), false
 	}
@@ -94,6 +95,18 @@ func libEncodePDU(s *refper.Schema, n *refper.Node) (b []byte, err error, panick
 		var err2 error
 		if perr := recoverErr(func() { b2, err2 = ngap.Encoder(pdu) }); perr != nil || err2 != nil || !bytes.Equal(b, b2) {
 			ngapSecondEncode = fmt.Sprintf("first encode %x, second encode of the same value %x (%v %v)", b, b2, perr, err2)
+		}
+		if gobridge.EmptyOctetsSeen > 0 {
+			// the same value with its zero-length OCTET STRINGs held as nil slices (a field never assigned) instead of empty ones
+			var pdu3 ngapType.NGAPPDU
+			gobridge.NilForEmpty = true
+			e3 := gobridge.ToGo(s, "NGAPPDU", n, reflect.ValueOf(&pdu3).Elem())
+			gobridge.NilForEmpty = false
+			var b3 []byte
+			var err3 error
+			if perr := recoverErr(func() { b3, err3 = ngap.Encoder(pdu3) }); e3 == nil && (perr != nil || err3 != nil || !bytes.Equal(b, b3)) {
+				ngapSecondEncode = fmt.Sprintf("encoded %x with empty OCTET STRINGs as empty slices, %x (%v %v) with the same ones as nil slices", b, b3, perr, err3)
+			}
 		}
 	}
 	return
@@ -143,6 +156,7 @@ var ngapDecodeAliases string
 func libEncodeTransfer(s *refper.Schema, typ string, n *refper.Node) (b []byte, err error, panicked bool) {
 	t := transferTypes[typ]
 	v := reflect.New(t)
+	gobridge.NilForEmpty, gobridge.EmptyOctetsSeen = false, 0
 	if e := gobridge.ToGo(s, typ, n, v.Elem()); e != nil {
 		return nil, fmt.Errorf("harness: %v", e), false
 	}
